@@ -666,3 +666,199 @@ Proof.
 Qed.
 
 End Loader.
+
+(** ** The decidable statement used by the generated cases *)
+Section Decidable.
+Variable pint : string -> option Z.
+Variable pflt : string -> option num.
+Variable pval : string -> option num.
+
+Lemma all_len_Forall {A} n (rows : list (list A)) :
+  all_len n rows = true -> Forall (fun r => length r = n) rows.
+Proof.
+  unfold all_len. intros H. apply Forall_forall. intros r Hr.
+  rewrite forallb_forall in H. apply Nat.eqb_eq. now apply H.
+Qed.
+
+Lemma range_status_yes dt rows rng :
+  range_status dt rows rng = Yes -> range_agrees dt rows rng.
+Proof.
+  unfold range_status, range_agrees, range_close.
+  destruct rng as [|b1 [|b2 [|]]]; try discriminate.
+  - destruct (isclose_tie _ _ || isclose_tie _ _); [discriminate|].
+    destruct (isclose _ _ && isclose _ _); [reflexivity|discriminate].
+  - destruct (isclose_tie _ _ || isclose_tie _ _); [discriminate|].
+    destruct (isclose _ _ && isclose _ _); [reflexivity|discriminate].
+Qed.
+
+(** the harness reports a raised error as a violation only when
+    [well_formed] says [Yes]; such a file does load in the model
+    (completeness), so this never contradicts the model *)
+Theorem well_formed_loads fileattr dt f :
+  well_formed pint pflt pval dt f = Yes ->
+  exists g, read_lines pint pflt pval fileattr dt f = Ok g.
+Proof.
+  unfold well_formed. intros H.
+  destruct (map_opt pint (split_ws (line f 1))) as [[|nr [|nc [|]]]|] eqn:E1; try discriminate.
+  destruct (map_opt pflt (split_ws (line f 2))) as [[|[s| | |] [|[n| | |] [|]]]|] eqn:E2; try discriminate.
+  destruct (map_opt pflt (split_ws (line f 3))) as [[|[w| | |] [|[e| | |] [|]]]|] eqn:E3; try discriminate.
+  destruct (map_opt pflt (split_ws (line f 4))) as [[|[lo| | |] [|[hi| | |] [|]]]|] eqn:E4; try discriminate.
+  destruct (map_opt (map_opt pval) (body_rows f)) as [rows|] eqn:E5; try discriminate.
+  match type of H with (if ?c then _ else _) = _ => destruct c eqn:C; [|discriminate] end.
+  repeat (apply andb_true_iff in C as [C ?]).
+  apply Z.leb_le in C. 
+  match goal with Hx : (2 <=? nc)%Z = true |- _ => apply Z.leb_le in Hx end.
+  match goal with Hx : (Z.of_nat (length rows) =? nr)%Z = true |- _ => apply Z.eqb_eq in Hx end.
+  match goal with Hx : all_len _ rows = true |- _ => apply all_len_Forall in Hx end.
+  apply range_status_yes in H.
+  eexists. eapply (load_complete pint pflt pval fileattr dt f (Z.to_nat nr) (Z.to_nat nc) s n w e).
+  - lia.
+  - lia.
+  - unfold header_is. rewrite !Z2Nat.id by lia. repeat split; eassumption.
+  - exact E5.
+  - split; [lia|assumption].
+  - exact H.
+Qed.
+
+(** conversely, when the model returns a grid, [grid_is_file] does not say
+    [No] of an observed grid that equals the model's (same values, id, file,
+    dims, dtype, coordinates within the tolerance) *)
+Lemma num_eqb_sym a b : num_eqb a b = num_eqb b a.
+Proof.
+  destruct a as [x| | |], b as [y| | |]; try reflexivity. cbn. unfold deq.
+  destruct (Z.eqb_spec (fst (dsub x y)) 0) as [E|E];
+    destruct (Z.eqb_spec (fst (dsub y x)) 0) as [E'|E']; try reflexivity; exfalso.
+  - apply E'. apply D2Q_sign_eq. apply D2Q_sign_eq in E. rewrite D2Q_sub in *. lra.
+  - apply E. apply D2Q_sign_eq. apply D2Q_sign_eq in E'. rewrite D2Q_sub in *. lra.
+Qed.
+
+Lemma list_eqb_app {A} (eqb : A -> A -> bool) a1 a2 b1 b2 :
+  list_eqb eqb a1 b1 = true -> list_eqb eqb a2 b2 = true -> list_eqb eqb (a1 ++ a2)%list (b1 ++ b2)%list = true.
+Proof.
+  revert b1. induction a1 as [|x a1 IH]; intros [|y b1] H1 H2; cbn in *; try discriminate; [exact H2|].
+  apply andb_true_iff in H1 as [Hx H1]. rewrite Hx. cbn. now apply IH.
+Qed.
+
+Lemma vals_eqb_concat a b : vals_eqb a b = true -> list_eqb num_eqb (concat a) (concat b) = true.
+Proof.
+  unfold vals_eqb. revert b. induction a as [|r a IH]; intros [|r' b] H; cbn in *; try discriminate; [reflexivity|].
+  apply andb_true_iff in H as [Hr H]. apply list_eqb_app; [exact Hr|now apply IH].
+Qed.
+
+Lemma list_eqb_sym {A} (eqb : A -> A -> bool) :
+  (forall x y, eqb x y = eqb y x) -> forall a b, list_eqb eqb a b = list_eqb eqb b a.
+Proof.
+  intros Hs a. induction a as [|x a IH]; intros [|y b]; cbn; try reflexivity.
+  now rewrite Hs, IH.
+Qed.
+
+Lemma list_eqb_length {A} (eqb : A -> A -> bool) a b : list_eqb eqb a b = true -> length a = length b.
+Proof.
+  revert b. induction a as [|x a IH]; intros [|y b] H; cbn in *; try discriminate; [reflexivity|].
+  apply andb_true_iff in H as [_ H]. f_equal. now apply IH.
+Qed.
+
+Lemma vals_eqb_all_len n a b : vals_eqb a b = true -> all_len n a = true -> all_len n b = true.
+Proof.
+  unfold vals_eqb, all_len. revert b. induction a as [|r a IH]; intros [|r' b] H Ha; cbn in *; try discriminate; [reflexivity|].
+  apply andb_true_iff in H as [Hr H]. apply andb_true_iff in Ha as [Hn Ha].
+  apply list_eqb_length in Hr. rewrite <- Hr, Hn. cbn. now apply IH.
+Qed.
+
+Lemma concat_map_map {A B} (k : A -> B) rows : concat (map (map k) rows) = map k (concat rows).
+Proof. induction rows as [|r t IH]; cbn; [reflexivity|]. now rewrite map_app, IH. Qed.
+
+Lemma range_agrees_status dt rows rng :
+  range_agrees dt rows rng -> range_status dt rows rng <> No.
+Proof.
+  unfold range_status, range_agrees, range_close.
+  destruct rng as [|b1 [|b2 [|]]]; try discriminate.
+  - intros H. injection H as H. destruct (isclose_tie _ _ || isclose_tie _ _); [discriminate|].
+    rewrite H. discriminate.
+  - intros H. injection H as H. destruct (isclose_tie _ _ || isclose_tie _ _); [discriminate|].
+    rewrite H. discriminate.
+Qed.
+
+Theorem agree_grid_is_file fileattr dt f g o :
+  read_lines pint pflt pval fileattr dt f = Ok g ->
+  grid_agrees g o = true ->
+  grid_is_file pint pflt pval fileattr dt f o <> No.
+Proof.
+  intros Hl Ha. apply load_sound in Hl.
+  destruct Hl as (nr & nc & s & n & w & e & rng & rows & Hnr & Hnc & (E1 & E2 & E3 & E4) & E5 &
+                  (Hlen & Hall) & Hrng & Hv & Hn & He & Hid & Hf & Hd & Hdt).
+  unfold body_is in E5.
+  unfold grid_is_file. rewrite E1, E2, E3, E4, E5.
+  unfold grid_agrees in Ha.
+  repeat (apply andb_true_iff in Ha as [Ha ?]).
+  rewrite Hv in Ha.
+  assert (C1 : (Z.of_nat (length (og_vals o)) =? Z.of_nat nr)%Z = true).
+  { apply Z.eqb_eq. f_equal. unfold vals_eqb in Ha. apply list_eqb_length in Ha.
+    rewrite map_length in Ha. lia. }
+  assert (C2 : all_len (Z.to_nat (Z.of_nat nc)) (og_vals o) = true).
+  { rewrite Nat2Z.id. apply (vals_eqb_all_len nc _ _ Ha).
+    unfold all_len. apply forallb_forall. intros r Hr. apply in_map_iff in Hr as (r0 & <- & Hr0).
+    rewrite map_length. apply Nat.eqb_eq. rewrite Forall_forall in Hall. now apply Hall. }
+  assert (C3 : (0 <=? Z.of_nat nc)%Z = true) by (apply Z.leb_le; lia).
+  assert (C4 : list_eqb num_eqb (concat (og_vals o)) (map (mask dt) (concat rows)) = true).
+  { rewrite <- concat_map_map. rewrite (list_eqb_sym num_eqb num_eqb_sym). now apply vals_eqb_concat. }
+  rewrite C1, C2, C3, C4. cbn [andb].
+  rewrite !Nat2Z.id. rewrite <- Hn, <- He.
+  repeat match goal with Hx : _ = true |- _ => rewrite Hx; clear Hx end.
+  cbn [andb].
+  assert (C5 : String.eqb (og_id o) (strip (line f 0)) = true).
+  { match goal with Hx : String.eqb (g_id g) (og_id o) = true |- _ => apply String.eqb_eq in Hx; rewrite <- Hx, Hid end.
+    apply String.eqb_refl. }
+  rewrite C5. cbn [andb].
+  assert (C6 : option_eqb String.eqb (og_file o) fileattr = true).
+  { rewrite Hf in H1. destruct fileattr as [a|], (og_file o) as [b|]; cbn in *; try discriminate; [|reflexivity].
+    now rewrite String.eqb_sym. }
+  assert (C7 : list_eqb String.eqb (og_dims o) ["northing"; "easting"] = true).
+  { rewrite Hd in H0. now rewrite (list_eqb_sym String.eqb String.eqb_sym). }
+  assert (C8 : dtype_eqb (og_dtype o) dt = true).
+  { rewrite Hdt in H. now destruct dt, (og_dtype o). }
+  rewrite C6, C7, C8. cbn [andb].
+  now apply range_agrees_status.
+Qed.
+
+(** an observation that agrees with the model satisfies the decidable
+    statement: what the generated cases call a violation is never a mere
+    artefact of the statement being stricter than the model; and the model
+    itself is covered by the theorems above *)
+Theorem agree_implies_holds dt f src ob :
+  outcome_agrees (load_surfer pint pflt pval (fst (model_source f src)) (snd (model_source f src)) dt) ob = true ->
+  snd (surfer_holds pint pflt pval dt f src ob) = true.
+Proof.
+  intros Ha. unfold outcome_agrees in Ha.
+  apply andb_true_iff in Ha as [Ha Hgiven]. apply andb_true_iff in Ha as [Hres Hleak].
+  rewrite load_surfer_result in Hres.
+  assert (Hclosed : (ob_leak ob =? 0)%Z = true).
+  { destruct src as [p ex|closed]; cbn in Hleak.
+    - destruct (ex && (p =? p)%string); cbn in Hleak; [|exact Hleak].
+      destruct (ob_leak ob =? 0)%Z; [reflexivity|discriminate].
+    - exact Hleak. }
+  unfold surfer_holds. rewrite Hclosed.
+  destruct (ob_res ob) as [o|e'].
+  - (* a grid was observed *)
+    destruct src as [p ex|closed]; cbn [model_source fst snd readable fileattr_of] in *.
+    + destruct ex; cbn [andb] in Hres; [|discriminate].
+      rewrite String.eqb_refl in Hres.
+      destruct (read_lines pint pflt pval (Some p) dt f) as [g|] eqn:El; [|discriminate].
+      pose proof (agree_grid_is_file _ _ _ _ _ El Hres) as Hn.
+      destruct (grid_is_file pint pflt pval (Some p) dt f o); try reflexivity. congruence.
+    + destruct closed; cbn [hd_state hd_lines negb] in *; [discriminate|].
+      destruct (read_lines pint pflt pval None dt f) as [g|] eqn:El; [|discriminate].
+      pose proof (agree_grid_is_file _ _ _ _ _ El Hres) as Hn.
+      destruct (grid_is_file pint pflt pval None dt f o); try reflexivity. congruence.
+  - (* an error was observed *)
+    destruct (readable src) eqn:Er; [|reflexivity].
+    destruct (well_formed pint pflt pval dt f) eqn:Ew; try reflexivity.
+    exfalso.
+    destruct src as [p ex|closed]; cbn [model_source fst snd readable] in *.
+    + subst ex. cbn [andb] in Hres. rewrite String.eqb_refl in Hres.
+      destruct (well_formed_loads (Some p) dt f Ew) as [g El]. rewrite El in Hres. discriminate.
+    + destruct closed; [discriminate|]. cbn [hd_state hd_lines] in Hres.
+      destruct (well_formed_loads None dt f Ew) as [g El]. rewrite El in Hres. discriminate.
+Qed.
+
+End Decidable.
